@@ -6,6 +6,8 @@ from hypothesis import strategies as st
 from vlib import interleaved_model as im
 from vlib.core import Case, Facet, Refused, Violation
 
+# thorough-tier budgets of every facet are multiplied by this factor (sized for ~5-8 min on 16 cores)
+THOROUGH_SCALE = 5
 LEVEL = "exploration"
 RULE = ("spec = C04/C05 configuration (epoch-keyed main samplers) + epoch boundary k>=1 strictly before the budget + "
         "checkpoint form (start_epoch / start_update / start_sample, values read off the reference run at the end of epoch "
